@@ -436,8 +436,11 @@ fn family(thorough: bool, seed: u64) -> Vec<Fields> {
     out
 }
 
-const CODECS: [u64; 8] = [0x7800, 0x7810, 0x7820, 0x7701, 0x00, 0x55, 0x70, 0x7830];
-const CODES: [u64; 8] = [0x7801, 0x7811, 0x7821, 0x7700, 0x12, 0x00, 0x7800, 0x7831];
+// the three Shwap codecs, the three Shwap multihash codes used as codec (confusion of the two
+// number spaces), NMT, identity, raw, dag-pb, an unknown one
+const CODECS: [u64; 11] = [0x7800, 0x7810, 0x7820, 0x7801, 0x7811, 0x7821, 0x7701, 0x00, 0x55, 0x70, 0x7830];
+// the three Shwap multihash codes, the three Shwap codecs used as code, NMT, sha2-256, identity, unknown
+const CODES: [u64; 10] = [0x7801, 0x7811, 0x7821, 0x7800, 0x7810, 0x7820, 0x7700, 0x12, 0x00, 0x7831];
 
 /// Every corruption of the encodings of one valid id.
 fn corruptions(f: &Fields, light: bool, out: &mut Vec<Op>) {
@@ -599,7 +602,7 @@ fn main() {
         &ctx,
         rep,
         Spec {
-            rule: "family = heights {1,2,255,256,2^32,2^63,u64::MAX-1,u64::MAX} (thorough: also 2^k, 2^k|1, 2^(k+1)-1 for k<64) x row/column indices {0,1,255,256,65535} (thorough: also 2^k, 2^(k+1)-1, 2,127,128,32767,32768,65534) x 12 namespaces (v0 zero, TX, PFB, max primary reserved, 2 user, seeded, max v0, min secondary, 0x7f, tail padding, parity) for the five kinds; every member: constructor+accessors, encode == spec bytes, decode(encode) == id, CID bytes == spec CID, try_from(CID) == id, injectivity over the whole family; height 0 through every constructor; corruptions of every member's encoding: every length 0..=len+2 (+ a prefixed byte), height zeroed, each height byte zeroed / top bit flipped, each index byte flipped, each of the 29 namespace bytes set to {00,01,ff,^80}; CIDs: 8 codecs x 8 multihash codes (three Shwap pairs, NMT, sha2-256, identity, raw, dag-pb, two unknown), digest lengths {0,1,len-2,len-1,len+1,len+2,len+25}, zero height, namespace bytes {0,1,18,19,27,28} set to {01,fe}. (thorough: members outside the boundary family skip the per-byte height/index flips). distinct = distinct operation+arguments; non-trivial = decode inputs of the right length, all valid-id and CID cases",
+            rule: "family = heights {1,2,255,256,2^32,2^63,u64::MAX-1,u64::MAX} (thorough: also 2^k, 2^k|1, 2^(k+1)-1 for k<64) x row/column indices {0,1,255,256,65535} (thorough: also 2^k, 2^(k+1)-1, 2,127,128,32767,32768,65534) x 12 namespaces (v0 zero, TX, PFB, max primary reserved, 2 user, seeded, max v0, min secondary, 0x7f, tail padding, parity) for the five kinds; every member: constructor+accessors, encode == spec bytes, decode(encode) == id, CID bytes == spec CID, try_from(CID) == id, injectivity over the whole family; height 0 through every constructor; corruptions of every member's encoding: every length 0..=len+2 (+ a prefixed byte), height zeroed, each height byte zeroed / top bit flipped, each index byte flipped, each of the 29 namespace bytes set to {00,01,ff,^80}; CIDs: 11 codecs x 10 multihash codes (the three Shwap codecs and the three Shwap multihash codes in both roles, NMT, sha2-256, identity, raw, dag-pb, unknown), digest lengths {0,1,len-2,len-1,len+1,len+2,len+25}, zero height, namespace bytes {0,1,18,19,27,28} set to {01,fe}. (thorough: members outside the boundary family skip the per-byte height/index flips). distinct = distinct operation+arguments; non-trivial = decode inputs of the right length, all valid-id and CID cases",
             assumptions: &[
                 "EdsId and NamespaceDataId have no CID conversion in the code base (not served over bitswap); their CID part of the statement is not applicable",
                 "the expected byte and CID layouts are written from the Shwap specification in this file; only the cid/multihash crates' parser is shared with the code under test (used to build and parse CID values)",
